@@ -212,7 +212,7 @@ def symbolic_leg(e: Engine, P: Dict[str, Any], model: Any) -> Optional[Dict[str,
     for c in ctxs:
         if c.obj is None:
             continue
-        if not isinstance(c.obj, stubs.Dummy):
+        if not isinstance(c.obj, stubs.DummyManager):
             continue
         item = by_mid[c.obj.i]
         names = [k for k, v in f_locals.items() if v is c.obj]
